@@ -31,6 +31,8 @@
                     "amt":  [[n,d], ...],              -- probe amounts A(1..ncomp)   (advan only)
                     "obscmt": 0|n, "dosecmt": 0|n,     -- CMT of observation / dose records (0 = default)
                     "ratemode": "none"|"zero"|"pos"|"m1"|"m2",
+                    "comps": [{"name","defdose","defobs","nodose"},..],  -- $MODEL (advan 5,6,7,8,9,13 only)
+                    "des":  [stmt...],                 -- $DES (advan 6,8,9,13 only): assigns "DADT(n)", reads "A(n)", "T"
                     "envs": [ { "<name>": [n,d], ... }, ... ]   -- 1..3 probe environments
                   }, ... ] }
      stmt ::= {"k":"asg","v":V,"e":e} | {"k":"lif","c":c,"v":V,"e":e}
@@ -62,7 +64,7 @@ Init == /\ case \in (LET cs == Cases IN {cs[i] : i \in 1..Len(cs)})
         /\ phase = "main" /\ pc = case.prog /\ env = case.envs[eid]
         /\ adv = <<>> /\ seen = {}
 
-Running == phase \in {"main", "err"} /\ pc # <<>>
+Running == phase \in {"main", "des", "err"} /\ pc # <<>>
 Cur == Head(pc)
 Bind(e, v, x) == (v :> x) @@ e
 Keep == UNCHANGED <<case, eid, adv>>
@@ -137,19 +139,56 @@ AssignedStmt(st) ==
                          \cup (IF st.haselse THEN AssignedIn(st.els) ELSE {})
 AssignedIn(body) == UNION {AssignedStmt(body[i]) : i \in 1..Len(body)}
 
+SetToSeq(S) == LET RECURSIVE L(_)
+                   L(T) == IF T = {} THEN <<>> ELSE LET x == CHOOSE y \in T : TRUE IN <<x>> \o L(T \ {x})
+               IN L(S)
+
+\* kinds of kinetic library:  special (ADVAN1-4,10-12: Advan.tla's tables) | general linear (ADVAN5,7: $MODEL + Kij)
+\*                             | differential equations (ADVAN6,8,9,13: $MODEL + $DES)
+IsSpecial == C.advan \in Advans
+IsGeneral == C.advan \in {5, 7}
+IsDes     == C.advan \in {6, 8, 9, 13}
+NC   == IF IsSpecial THEN NComp(C.advan) ELSE Len(C.comps)
+ObsN == IF C.obscmt # 0 THEN C.obscmt ELSE IF IsSpecial THEN DefObs(C.advan) ELSE ModelDefObs(C.comps)
+DoseN == IF C.dosecmt # 0 THEN C.dosecmt ELSE IF IsSpecial THEN DefDose(C.advan) ELSE ModelDefDose(C.comps)
+FOf(e, as) == RDiv(C.amt[ObsN], Scale(C.advan, ObsN, e, as))
+
 AdvRecord(e) ==
     LET a == C.advan
         as == AssignedIn(C.prog)
         amt == C.amt
-    IN [ncomp |-> NComp(a), obs |-> ObsCmt(a, C.obscmt),
-        rates |-> Rates(a, C.trans, e, amt),
-        f     |-> FValue(a, C.obscmt, e, as, amt),
-        lag   |-> [n \in 1..NComp(a) |-> Lag(n, e, as)],
-        bio   |-> [n \in 1..NComp(a) |-> Bio(n, e, as)],
-        dose  |-> Dose(a, C.dosecmt, C.ratemode, e)]
+    IN [ncomp |-> NC, obs |-> ObsN,
+        rates |-> IF IsSpecial THEN Rates(a, C.trans, e, amt)
+                  ELSE IF IsGeneral THEN GeneralRates(NC, e, as) ELSE <<>>,
+        dadt  |-> IF IsDes THEN [n \in 1..NC |-> Lookup(e, "DADT(" \o NumStr(n) \o ")")] ELSE <<>>,
+        missing |-> SetToSeq((IF IsSpecial THEN RequiredParams(a, C.trans) \ as ELSE {})
+                             \cup (IF IsGeneral /\ GeneralAmbiguous(NC, as) THEN {"ambiguous rate constant names"} ELSE {})),
+        f     |-> FOf(e, as),
+        lag   |-> [n \in 1..NC |-> Lag(n, e, as)],
+        bio   |-> [n \in 1..NC |-> Bio(n, e, as)],
+        dose  |-> Dose(a, DoseN, C.ratemode, e)]
 
-DoAdvan ==
-    /\ phase = "main" /\ pc = <<>> /\ IsAdvan
+\* amounts are visible to $DES and $ERROR as A(n)
+RECURSIVE BindAmounts(_, _)
+BindAmounts(e, n) == IF n = 0 THEN e ELSE BindAmounts(Bind(e, "A(" \o NumStr(n) \o ")", C.amt[n]), n - 1)
+
+DoAdvan ==            \* special and general linear libraries: $PK has run, PREDPP supplies F
+    /\ phase = "main" /\ pc = <<>> /\ IsAdvan /\ ~IsDes
+    /\ adv' = AdvRecord(env)
+    /\ env' = Bind(BindAmounts(env, NC), "F", AdvRecord(env).f)
+    /\ IF IsVal(AdvRecord(env).f) THEN phase' = "err" /\ pc' = C.err ELSE phase' = "abort" /\ pc' = <<>>
+    /\ seen' = seen \cup {"advan"}
+    /\ UNCHANGED <<case, eid>>
+
+DoEnterDes ==         \* $DES is evaluated at the probe state A(1..n) (its statements run like any abbreviated code)
+    /\ phase = "main" /\ pc = <<>> /\ IsAdvan /\ IsDes
+    /\ env' = BindAmounts(env, NC)
+    /\ phase' = "des" /\ pc' = C.des
+    /\ seen' = seen \cup {"des"}
+    /\ UNCHANGED <<case, eid, adv>>
+
+DoLeaveDes ==         \* the right-hand sides DADT(n) are recorded, PREDPP supplies F, $ERROR follows
+    /\ phase = "des" /\ pc = <<>>
     /\ adv' = AdvRecord(env)
     /\ env' = Bind(env, "F", AdvRecord(env).f)
     /\ IF IsVal(AdvRecord(env).f) THEN phase' = "err" /\ pc' = C.err ELSE phase' = "abort" /\ pc' = <<>>
@@ -162,11 +201,12 @@ DoFinish ==
     /\ UNCHANGED <<case, eid, pc, env, adv, seen>>
 
 Next == DoAssign \/ DoLogicalIfTaken \/ DoLogicalIfSkipped \/ DoBlockIf \/ DoBlockElseIf
-        \/ DoBlockElse \/ DoBlockNone \/ DoCondUndefined \/ DoValueUndefined \/ DoAdvan \/ DoFinish
+        \/ DoBlockElse \/ DoBlockNone \/ DoCondUndefined \/ DoValueUndefined \/ DoAdvan
+        \/ DoEnterDes \/ DoLeaveDes \/ DoFinish
 Spec == Init /\ [][Next]_vars
 
 \* ---------------------------------------------------------------- invariants of the interpreter
-TypeOK == /\ phase \in {"main", "err", "done", "abort"}
+TypeOK == /\ phase \in {"main", "des", "err", "done", "abort"}
           /\ \A v \in DOMAIN env : Len(env[v]) = 2 /\ env[v][2] >= 0
 \* the interpreter only ever adds bindings; inputs are never lost
 Monotone == DOMAIN Env0 \subseteq DOMAIN env
@@ -179,15 +219,13 @@ User(e) == [v \in (DOMAIN e) \ (DOMAIN Env0) |-> e[v]]
 DesignEnv ==
     IF ~IsAdvan THEN ExecIR(ParseTree(C.prog), Env0)
     ELSE LET e1 == ExecIR(ParseTree(C.prog), Env0)
-             e2 == Bind(e1, "F", FValue(C.advan, C.obscmt, e1, AssignedIn(C.prog), C.amt))
+             e1a == BindAmounts(e1, NC)
+             e1b == IF IsDes THEN ExecIR(ParseTree(C.des), e1a) ELSE e1a
+             e2 == Bind(e1b, "F", FOf(e1b, AssignedIn(C.prog)))
          IN ExecIR(ParseTree(C.err), e2)
 
 DiffVars(fin, des) ==
     {v \in DOMAIN fin : IsVal(fin[v]) /\ (v \notin DOMAIN des \/ (IsVal(des[v]) /\ des[v] # fin[v]))}
-
-SetToSeq(S) == LET RECURSIVE L(_)
-                   L(T) == IF T = {} THEN <<>> ELSE LET x == CHOOSE y \in T : TRUE IN <<x>> \o L(T \ {x})
-               IN L(S)
 
 Out ==
     LET fin == User(env)
